@@ -19,7 +19,7 @@ R06.7 __eq__ / __ne__ pairing: every class defining __eq__ defines __ne__ as its
 """
 import ast
 
-from sa.modp import ModP, identity_outcome, R, S, KS, W
+from sa.modp import ModP, identity_outcome, zero_return, zero_branch, R, S, KS, W
 from sa.model import AnalysisError, norm_text
 from .common import world
 
@@ -27,6 +27,21 @@ DOUBLING = {"_double", "_double_with_z_1"}
 
 
 CONFIG_SENSITIVE = True      # thorough tier: analysed under all four build configurations
+
+def eq_deciding_tests(M):
+    """the coordinate comparisons of PointJacobi.__eq__ that must hold for the answer True: conjuncts
+    of the returned expression, or tests whose failure returns False at once (identity tests on
+    one operand's raw Y / Z - `x == INFINITY` - are not among them)"""
+    from sa.modp import required_for_true
+    out = []
+    for t in M.tests:
+        if t.func.node.name != "__eq__" or t.kind not in ("zero", "eq") or not required_for_true(t):
+            continue
+        deps = frozenset().union(*[o.deps for o in t.operands])
+        if {d[0] for d in deps} >= {"op1", "op2"}:
+            out.append(t)
+    return out
+
 
 def identity_operand_rule(chk, M, pid):
     # ---- R06.8 identity operands: the internal addition recognises an operand with Z == 0
@@ -37,15 +52,15 @@ def identity_operand_rule(chk, M, pid):
         zname = pa[zi] if len(pa) >= 7 else None
         hit = False
         for t in M.tests:
-            if t.func is fa and t.kind == "zero" and isinstance(t.node, ast.UnaryOp) and isinstance(t.node.operand, ast.Name) and t.node.operand.id == zname and isinstance(t.stmt, ast.If):
-                rv = t.stmt.body[0].value if len(t.stmt.body) == 1 and isinstance(t.stmt.body[0], ast.Return) else None
+            if t.func is fa and t.kind == "zero" and t.optext == zname and isinstance(t.stmt, ast.If):
+                rv = zero_return(t)
                 if isinstance(rv, ast.Tuple) and [getattr(x, "id", None) for x in rv.elts] == others:
                     hit = True
         chk.ob("R06.8", "_add: operand with %s == 0 (identity in Jacobian form) -> the other operand is returned" % zname, hit, loc=fa.qname, key="%s|R06.8|_add|%d" % (pid, zi),
                detail="_add does not treat an operand with %s == 0 as the identity: the sum with a point at infinity produced by the formulas (X, Y != 0, 0) is wrong" % zname)
     fd_ = M.c.methods["_double"]
     pd = [x for x in fd_.params if x not in ("self", "cls")]
-    hitd = any(t.func is fd_ and t.kind == "zero" and isinstance(t.node, ast.UnaryOp) and isinstance(t.node.operand, ast.Name) and t.node.operand.id == pd[2] and identity_outcome(t.stmt, t.node) == "(0, 0, 1)" for t in M.tests)
+    hitd = any(t.func is fd_ and t.kind == "zero" and t.optext == pd[2] and identity_outcome(t) == "(0, 0, 1)" for t in M.tests)
     chk.ob("R06.8", "_double: operand with %s == 0 -> (0, 0, 1)" % pd[2], hitd, loc=fd_.qname, key="%s|R06.8|_double" % pid, detail="_double does not map an identity operand (Z == 0) to the identity")
 
 
@@ -98,7 +113,7 @@ def run(chk):
         nm = f.node.name
         if not any("out" in v.roles for v in a):
             continue
-        zt = [t for t in M.tests if t.func is f and t.kind == "zero" and "Z" in t.roles and "out" in t.roles and identity_outcome(t.stmt, t.node) == "INFINITY" and t.node.lineno < n.lineno]
+        zt = [t for t in M.tests if t.func is f and t.kind == "zero" and "Z" in t.roles and "out" in t.roles and identity_outcome(t) == "INFINITY" and t.node.lineno < n.lineno]
         chk.ob("R06.2", "%s: result Z tested for zero (-> INFINITY) before PointJacobi(...) is built" % nm, bool(zt), loc=loc(f, n), key="C06|R06.2|zguard|%s" % nm,
                detail="%s builds a point from formula results without mapping Z == 0 to INFINITY" % nm)
 
@@ -117,7 +132,11 @@ def run(chk):
     for f, n, a in leg:
         # coordinates read from self.__x / self.__y are not modelled as reduced here: accept R or a raw field passed through unchanged
         srcs = [norm_text(x) for x in n.args[1:3]]
-        ok = all(v.cls == R or s_.startswith("self._") or s_.startswith("self.__") for v, s_ in zip(a, srcs))
+        from sa import pat as _pat
+        D_ = _pat.defs_of(f.node)
+        # accepted: a value reduced `% p`; a stored coordinate passed through unchanged; the
+        # reflection p - y of the stored y (with p the curve's prime, however it is named)
+        ok = all(v.cls == R or _pat.any_of(x, ["self.__x", "self.__y", "X_c.p() - self.__y"], defs=D_) is not None for v, x in zip(a, n.args[1:3]))
         chk.ob("R06.3", "Point.%s: result coordinates reduced %s" % (f.node.name, srcs), ok, loc=loc(f, n), key="C06|R06.3|legacy|%s" % f.node.name,
                detail="legacy Point.%s builds a point from unreduced coordinates %s" % (f.node.name, srcs))
 
@@ -127,7 +146,7 @@ def run(chk):
     for t in M.tests:
         if t.kind != "zero" or "Y" not in t.roles or ("X" in t.roles or "Z" in t.roles):
             continue
-        out = identity_outcome(t.stmt, t.node)
+        out = identity_outcome(t)
         if out is None:
             # mul_add: `if not pApB_Y or not pApB_Z: return self * self_mul + other * other_mul` - treated as "sum is the identity"
             if isinstance(t.stmt, ast.If) and t.stmt.body and isinstance(t.stmt.body[0], ast.Return) and isinstance(t.stmt.body[0].value, ast.BinOp):
@@ -211,12 +230,13 @@ def run(chk):
              "if self.__x == other.__x:\n    if (self.__y + other.__y) % X_p == 0:\n        return INFINITY\n    return self.double()",
              "if self.__x == other.__x:\n    if (self.__y - other.__y) % X_p == 0:\n        return self.double()\n    else:\n        return INFINITY",
              "if self.__x == other.__x:\n    if (self.__y - other.__y) % X_p == 0:\n        return self.double()\n    return INFINITY"]
-    hits = [b_ for st_ in fl.node.body for b_ in [pat.any_of(st_, forms)] if b_ is not None]
+    Dl = pat.defs_of(fl.node)
+    hits = [b_ for st_ in fl.node.body for b_ in [pat.any_of(st_, forms, defs=Dl)] if b_ is not None]
     okl = len(hits) == 1 and norm_text(hits[0]["X_p"]) in ("self.__curve.p()", "p", "other.__curve.p()")
     if okl and norm_text(hits[0]["X_p"]) == "p":
         okl = any(isinstance(x, ast.Assign) and norm_text(x) == "p = self.__curve.p()" for x in fl.node.body)
     # no other return of the identity / of a doubling before the general formula
-    early = [x for st_ in fl.node.body if not (pat.any_of(st_, forms) is not None) for x in ast.walk(st_) if isinstance(x, ast.Return) and (norm_text(x.value) == "self.double()" or (norm_text(x.value) == "INFINITY"))]
+    early = [x for st_ in fl.node.body if not (pat.any_of(st_, forms, defs=Dl) is not None) for x in ast.walk(st_) if isinstance(x, ast.Return) and (norm_text(x.value) == "self.double()" or (norm_text(x.value) == "INFINITY"))]
     chk.ob("R06.9", "legacy Point.__add__: equal x -> INFINITY iff (y1 + y2) % p == 0, else double(); no other shortcut to either", okl and not early, loc=fl.qname, key="C06|R06.9|legacy-same-x",
            detail="the legacy addition decides the equal-x case otherwise than by (y1 + y2) %% p == 0 (%s): with an unreduced y (as Point.__mul__ builds) -P + P' or P + P is answered wrongly" % ("other shortcuts: %s" % [norm_text(x) for x in early] if early else "test not found"))
 
@@ -238,12 +258,14 @@ def run(chk):
             chk.ob("R06.7", "%s.__eq__ returns NotImplemented for foreign types" % c.name, ni, loc=c.qname, key="C06|R06.7|ni|%s" % c.name, detail="%s.__eq__ never returns NotImplemented" % c.name)
     chk.floor("R06.7", "classes defining __eq__", ncls, 4)
     # PointJacobi.__eq__ compares reduced cross products
-    eqt = [t for t in M.tests if t.func.node.name == "__eq__" and t.kind == "zero" and isinstance(t.stmt, ast.Return) and isinstance(t.stmt.value, ast.BoolOp) and isinstance(t.stmt.value.op, ast.And)]
-    chk.ob("R06.7", "PointJacobi.__eq__ compares cross-multiplied coordinates reduced mod p [%d test(s)]" % len(eqt), len(eqt) >= 2 and all(t.exact and t.operands[0].cls == R for t in eqt),
+    eqt = eq_deciding_tests(M)
+    okx = any({("op1", "X"), ("op2", "X")} <= frozenset().union(*[o.deps for o in t.operands]) for t in eqt)
+    oky = any({("op1", "Y"), ("op2", "Y")} <= frozenset().union(*[o.deps for o in t.operands]) for t in eqt)
+    chk.ob("R06.7", "PointJacobi.__eq__ compares cross-multiplied coordinates reduced mod p [%d test(s)]" % len(eqt), len(eqt) >= 2 and okx and oky and all(t.exact and t.operands[0].cls == R for t in eqt),
            loc="ellipticcurve:PointJacobi.__eq__", key="C06|R06.7|crossmul", detail="__eq__ does not compare both cross products modulo p")
     # representation independence: every coordinate comparison that decides equality depends on the Z of
     # BOTH operands (cross-multiplication), unless it is dominated by a direct test Z1 == Z2 on the stored Z values
-    decide = [t for t in M.tests if t.func.node.name == "__eq__" and isinstance(t.stmt, ast.Return) and "in" not in {r for r in t.roles if r == "zz"}]
+    decide = eq_deciding_tests(M)
     eqf = p.func("ellipticcurve:PointJacobi.__eq__")
     parents = {}
     for n in ast.walk(eqf.node):
@@ -251,8 +273,6 @@ def run(chk):
             parents[id(c_)] = n
     nrep = 0
     for t in decide:
-        if isinstance(t.stmt.value, ast.BoolOp) and isinstance(t.stmt.value.op, ast.Or):
-            continue                      # comparison with the identity (covered by R06.4)
         nrep += 1
         deps = frozenset().union(*[o.deps for o in t.operands])
         zs = {d for d in deps if d[1] == "Z"}
